@@ -14,6 +14,8 @@ import (
 
 	"verif/internal/harness"
 
+	"pgregory.net/rapid"
+
 	"github.com/cloudspannerecosystem/memefish"
 	"github.com/cloudspannerecosystem/memefish/ast"
 	"github.com/cloudspannerecosystem/memefish/token"
@@ -329,4 +331,146 @@ func lastStep(p string) string {
 		return p[i+1:]
 	}
 	return p
+}
+
+// ---- many-line inputs (line tables, line-number formatting, per-line caches) ----
+
+var manyLineCounts = []int{1, 2, 3, 9, 10, 11, 63, 64, 65, 66, 99, 100, 101, 127, 128, 129, 255, 256, 257, 511, 512, 513, 998, 999, 1000, 1001, 1002, 1023, 1024, 1025, 2048, 4096, 4097}
+var manyLinePieces = []string{"SELECT 1;", "SELECT 1;", "", "a", "-- c", "x;y", "'s'", ";", "/* c */", "SELECT 1", "SELECT a, b FROM t;", "\t", "é", "# c", "DROP TABLE t;", "CREATE SEQUENCE s OPTIONS (sequence_kind = 'bit_reversed_positive');"}
+
+// multi-line constructs that stay open until the end of input (their error range spans lines), and one-line lexical errors
+var manyLineBreakers = []string{"/*", "/* TODO\n more", "'''x", "\"\"\"x\ny", "'abc", "`q", "\x00", "$", "1a", "0x", "\"\\x", "@{", "(", "SELECT (", "b'''\\u1", "r\"", "/*/"}
+
+// drawManyLines draws a text with a drawn number of short lines (boundary counts: 64, 100, 128, 256, 1000, 1024, 4096 ...)
+// and optionally one lexical / syntactic error at offset 0, at the start of a drawn line, or at the very end.
+// where is "", "start", "middle" or "end".
+func drawManyLines(t *rapid.T) (text, where string) {
+	n := rapid.SampledFrom(manyLineCounts).Draw(t, "lines")
+	if rapid.IntRange(0, 4).Draw(t, "free-lines") == 0 {
+		n = rapid.IntRange(1, 1100).Draw(t, "n-lines")
+	}
+	nl := rapid.SampledFrom([]string{"\n", "\n", "\n", "\r\n", "\n\n"}).Draw(t, "newline")
+	dom := rapid.SampledFrom(manyLinePieces).Draw(t, "dominant-line")
+	if n*len(dom) > 48000 {
+		dom = "SELECT 1;" // keep the text below ~48 KiB
+	}
+	where = rapid.SampledFrom([]string{"", "start", "middle", "end", "end", "end"}).Draw(t, "break-where")
+	breaker := rapid.SampledFrom(manyLineBreakers).Draw(t, "breaker")
+	at := rapid.IntRange(0, n-1).Draw(t, "break-line")
+	var b strings.Builder
+	if where == "start" {
+		b.WriteString(breaker)
+		if rapid.Bool().Draw(t, "break-own-line") {
+			b.WriteString(nl)
+		}
+	}
+	for i := 0; i < n; i++ {
+		if where == "middle" && i == at {
+			b.WriteString(breaker)
+		}
+		if rapid.IntRange(0, 5).Draw(t, "other-line") == 0 {
+			b.WriteString(rapid.SampledFrom(manyLinePieces).Draw(t, "line"))
+		} else {
+			b.WriteString(dom)
+		}
+		b.WriteString(nl)
+	}
+	if where == "end" {
+		b.WriteString(breaker)
+		if rapid.Bool().Draw(t, "trailing-newline") {
+			b.WriteString(nl)
+		}
+	}
+	return b.String(), where
+}
+
+// ---- inputs with one very long list (or a long operator chain next to a list) ----
+
+var longListCounts = []int{3, 64, 100, 120, 127, 128, 129, 130, 200, 255, 256, 257, 300, 511, 512, 513, 520, 700, 1023, 1024, 1025}
+
+// drawLongListSource draws an input whose tree holds one list of a drawn boundary length (IN list, call arguments, array,
+// select list, VALUES rows, ORDER BY, path, struct fields, table columns, statement list) or a long left-deep operator chain
+// ending / starting in a short list. It returns the source and the name of a matching entry point.
+func drawLongListSource(t *rapid.T) (src, entry, form string) {
+	n := rapid.SampledFrom(longListCounts).Draw(t, "list-length")
+	if rapid.IntRange(0, 4).Draw(t, "free-length") == 0 {
+		n = rapid.IntRange(2, 1100).Draw(t, "n-elements")
+	}
+	elems := func(f func(i int) string, sep string) string {
+		var b strings.Builder
+		for i := 0; i < n; i++ {
+			if i > 0 {
+				b.WriteString(sep)
+			}
+			b.WriteString(f(i))
+		}
+		return b.String()
+	}
+	num := func(i int) string { return strconv.Itoa(1000 + i) }
+	form = rapid.SampledFrom([]string{"in", "call", "array", "select", "values", "order-by", "path", "struct-type", "columns", "statements", "ddls", "chain-then-list", "list-then-chain", "tuple", "case", "with", "braced", "union"}).Draw(t, "long-form")
+	switch form {
+	case "in":
+		return "k IN (" + elems(num, ", ") + ")", "ParseExpr", form
+	case "call":
+		return "f(" + elems(num, ", ") + ")", "ParseExpr", form
+	case "array":
+		return "[" + elems(num, ", ") + "]", "ParseExpr", form
+	case "tuple":
+		return "(" + elems(num, ", ") + ", 0)", "ParseExpr", form
+	case "case":
+		return "CASE " + elems(func(i int) string { return "WHEN c = " + num(i) + " THEN " + num(i) }, " ") + " END", "ParseExpr", form
+	case "braced":
+		return "NEW T {" + elems(func(i int) string { return "f" + num(i) + ": " + num(i) }, ", ") + "}", "ParseExpr", form
+	case "select":
+		return "SELECT " + elems(func(i int) string { return "c" + num(i) }, ", ") + " FROM t", "ParseQuery", form
+	case "order-by":
+		return "SELECT 1 FROM t ORDER BY " + elems(func(i int) string { return "c" + num(i) }, ", "), "ParseQuery", form
+	case "with":
+		return "WITH " + elems(func(i int) string { return "w" + num(i) + " AS (SELECT 1)" }, ", ") + " SELECT 1", "ParseQuery", form
+	case "union":
+		return elems(func(i int) string { return "SELECT " + num(i) }, " UNION ALL "), "ParseQuery", form
+	case "values":
+		return "INSERT INTO t (a) VALUES " + elems(func(i int) string { return "(" + num(i) + ")" }, ", "), "ParseDML", form
+	case "path":
+		return elems(func(i int) string { return "p" + num(i) }, "."), "ParseExpr", form
+	case "struct-type":
+		return "STRUCT<" + elems(func(i int) string { return "f" + num(i) + " INT64" }, ", ") + ">", "ParseType", form
+	case "columns":
+		return "CREATE TABLE t (" + elems(func(i int) string { return "c" + num(i) + " INT64" }, ", ") + ") PRIMARY KEY (c1000)", "ParseDDL", form
+	case "statements":
+		return elems(func(i int) string { return "SELECT " + num(i) }, ";\n"), "ParseStatements", form
+	case "ddls":
+		return elems(func(i int) string { return "DROP TABLE t" + num(i) }, ";\n"), "ParseDDLs", form
+	case "chain-then-list":
+		k := rapid.IntRange(1, 12).Draw(t, "short-list")
+		var b strings.Builder
+		b.WriteString("1")
+		for i := 1; i < n; i++ {
+			b.WriteString(" + 1")
+		}
+		b.WriteString(" + f(")
+		for i := 0; i < k; i++ {
+			if i > 0 {
+				b.WriteString(", ")
+			}
+			b.WriteString(num(i))
+		}
+		b.WriteString(")")
+		return b.String(), "ParseExpr", form
+	default: // list-then-chain
+		k := rapid.IntRange(1, 12).Draw(t, "short-list")
+		var b strings.Builder
+		b.WriteString("f(")
+		for i := 0; i < k; i++ {
+			if i > 0 {
+				b.WriteString(", ")
+			}
+			b.WriteString(num(i))
+		}
+		b.WriteString(")")
+		for i := 1; i < n; i++ {
+			b.WriteString(" + 1")
+		}
+		return b.String(), "ParseExpr", form
+	}
 }
